@@ -178,7 +178,8 @@ bool Action::stop() {
 }
 
 bool Action::finish(bool is_succ, const Reason &why, const Trace &trace) {
-  if (state_ != State::kFinished && state_ != State::kStoped) {
+  //! 只有在运行/暂停中的动作才能结束：被回调 reset() 回 kIdle 之后，旧一轮遗留下来的 finish() 不能作用到下一轮
+  if (isUnderway()) {
     LogDbg("action %d:%s[%s] finished, is_succ: %s", id_, type_.c_str(), label_.c_str(),
            (is_succ? "succ" : "fail"));
 
@@ -204,7 +205,7 @@ bool Action::finish(bool is_succ, const Reason &why, const Trace &trace) {
 }
 
 bool Action::block(const Reason &why, const Trace &trace) {
-  if (state_ != State::kFinished && state_ != State::kStoped) {
+  if (isUnderway()) {
     LogDbg("action %d:%s[%s] blocked", id_, type_.c_str(), label_.c_str());
 
     state_ = State::kPause;
